@@ -155,6 +155,14 @@ fn names() -> [&'static str; 2] {
 }
 
 fn lifecycle_script(name: &str) -> String {
+    // the second name answers through an explicit append and configures a non-default TTL for
+    // its return values: lifecycle announcements must not depend on output options
+    if name == names()[1] {
+        return format!(
+            "{{\n  return_options: {{ttl: \"ephemeral\"}}\n  run: {{|frame|\n    if $frame.topic == \"boom\" {{ error make {{msg: \"boom\"}} }}\n    if $frame.topic == \"retire\" {{ null | .append {}.unregister; return }}\n    if $frame.topic != \"ping\" {{ return }}\n    \"{}\" | .append {}.out\n    null\n  }}\n}}",
+            name, name, name
+        );
+    }
     format!(
         "{{\n  run: {{|frame|\n    if $frame.topic == \"boom\" {{ error make {{msg: \"boom\"}} }}\n    if $frame.topic == \"retire\" {{ null | .append {}.unregister; return }}\n    if $frame.topic != \"ping\" {{ return }}\n    \"{}\"\n  }}\n}}",
         name, name
@@ -303,6 +311,22 @@ pub fn run_history(h: &[Ev]) -> (Vec<F>, String) {
             }
             if !stopped.iter().any(|s| s.to_string() == *hid) {
                 fs.push(F { kind: "c16.unregistered.spurious".into(), msg: format!("{} step {}: handler {} was announced as stopped but should be active", label, step, hid) });
+            }
+        }
+        // ... and durably: the stored stream holds the announcement (a restart decides by it)
+        if step + 1 == h.len() {
+            let stored: Vec<Frame> = w.store.read_sync(None, None, None).collect();
+            for sid in &stopped {
+                let n = stored.iter().filter(|x| x.topic.ends_with(".unregistered") && meta_str(x, "handler_id") == Some(sid.to_string())).count();
+                if n != 1 {
+                    fs.push(F { kind: "c16.unregistered.not_stored".into(), msg: format!("{} step {}: the stored stream holds {} unregistered frames for the stopped handler {}", label, step, n, sid) });
+                }
+            }
+            for ((ci, ni), id) in &active {
+                let n = stored.iter().filter(|x| x.topic == format!("{}.registered", names()[*ni]) && x.context_id == ctxs[*ci] && meta_str(x, "handler_id") == Some(id.to_string())).count();
+                if n != 1 {
+                    fs.push(F { kind: "c16.registered.not_stored".into(), msg: format!("{} step {}: the stored stream holds {} registered frames for the active handler {}", label, step, n, id) });
+                }
             }
         }
         outcome.push(format!("{}:{}", w.snapshot().len() - mark, active.len()));
